@@ -34,7 +34,7 @@ func (chunkfault) Rule() string {
 		"(full traversal, top-level skip, seeded navigation): every two-chunk split point, byte-at-a-time, seeded random and " +
 		"boundary-biased plans (with empty reads and EOF-with-data variants), then a read failure at every byte offset 0..len in four " +
 		"variants (sticky/transient x with/without data x 3 error identities). One index in 16 adds a document holding a string / clob / blob of 4 KiB..200 000 bytes (last in the stream, followed by more, nested) read under chunk plans with pieces of 1000..100 000 bytes, end of data with or after the last bytes, and read failures at offsets around 4096, 8192, 65536 and the end. Writer side, for each writer configuration (text, pretty, both also with TextWriterQuietFinish, binary, binary " +
-		"with fixed table; one document in six carries a value of 500..3000 bytes): a write failure at every Write call in four variants (sticky/transient x accept nothing/short prefix). " +
+		"with fixed table; one document in six carries a value of 500..3000 bytes): a write failure at every Write call in six variants (sticky/transient x accept nothing / a short prefix / everything). " +
 		"Documents over 600 bytes / 600 write calls have offsets sampled instead of enumerated. A case is distinct by hash of " +
 		"(stored bytes, delivery plan, fault, program) resp. (configuration, call sequence, fault); non-trivial = the fault fired " +
 		"(the Read/Write call that carried it was made) or, for fault-free plans, the plan has at least one chunk boundary."
@@ -585,10 +585,13 @@ func (s chunkfault) writeSide(c *Ctx, r *prng.Rand, vals []*model.Value) {
 			calls = append(calls, 0, 1, 2, 3, W-1)
 		}
 		for _, j := range calls {
-			for v := 0; v < 4; v++ {
+			for v := 0; v < 6; v++ {
 				plan := sim.WritePlan{Fault: &sim.WriteFault{Call: j, Sticky: v&1 == 1, ErrKind: writeErrKinds[(j+v)%3]}}
 				if v&2 == 2 {
 					plan.Fault.Short = 1 + r.Intn(3)
+				}
+				if v >= 4 {
+					plan.Fault.Whole = true // every byte taken, error all the same
 				}
 				s.runWrite(c, cfg, all, finishIdx, plan, B)
 			}
